@@ -36,8 +36,16 @@
 extern void (*verif_async_yield) (int point, void *worker);
 #endif
 
-#define SLACK_MS 1000		/* scheduling allowance of the elapsed-time classes */
+#define LIVE_MS 60000		/* liveness bound of every wait-for-condition (never a verdict by itself) */
 #define POLL_MS 10		/* poll interval of the timed join (async_worker_pthread.c) */
+
+/* Timing rules of this harness (the check runs on busy machines):
+ *  - nothing is decided by a fixed sleep: the harness waits for the condition, LIVE_MS is only a liveness bound;
+ *  - the timed join is judged by COUNTING its nanosleep() calls (interposed below): the model proves
+ *    sleeps <= ceil(t/10); wall-clock time is not used;
+ *  - `overran` means: did not come back while a watchdog running under the same load made a wide multiple of
+ *    the proved number of 10 ms sleeps (join), or: came back later than 3 intervals + 5 s on a machine that at
+ *    that moment was measured NOT to be slow (timer stop). */
 
 static FILE *out;
 
@@ -76,6 +84,40 @@ static int wait_flag (volatile int *flag, long ms)
       usleep (200);
     }
   return 1;
+}
+
+/* libc interposition: nanosleep() calls of the thread inside async_worker_join are counted */
+static __thread int *sleep_counter;
+
+int nanosleep (const struct timespec *req, struct timespec *rem)
+{
+  int e;
+  if (sleep_counter)
+    (*sleep_counter)++;
+  e = clock_nanosleep (CLOCK_MONOTONIC, 0, req, rem);
+  if (e)
+    {
+      errno = e;
+      return -1;
+    }
+  return 0;
+}
+
+/* how slow is the machine right now: time of 20 sleeps of 10 ms, in ms (nominal 200) */
+static long load_probe_ms (void)
+{
+  long t0 = now_ms ();
+  for (int i = 0; i < 20; i++)
+    msleep (10);
+  return now_ms () - t0;
+}
+
+/* a completed call took `el` ms; proved bound `bound` ms.  late only with a wide margin on a machine that is not slow */
+static int came_back_late (long el, long bound)
+{
+  if (el <= 3 * bound + 5000)
+    return 0;
+  return load_probe_ms () < 600;
 }
 
 static uint64_t rng_next (uint64_t * s)
@@ -187,12 +229,13 @@ static void cmd_enq (unsigned p, unsigned v, unsigned size)
       emit ("skip writer-already-blocked");
       return;
     }
-  if ((q_flags & ASYNC_QUEUE_BLOCK_WRITER) && !(q_flags & ASYNC_QUEUE_DROP_OLDEST) && size > 0 && async_queue_is_full (q))
+  if ((q_flags & ASYNC_QUEUE_BLOCK_WRITER) && !(q_flags & ASYNC_QUEUE_DROP_OLDEST) && size > 0
+      && size <= q->max_msg_size && async_queue_is_full (q))
     {
       /* the call may sleep on not_full: make it from a helper thread and see whether it comes back */
       bw.p = p, bw.v = v, bw.size = size, bw.done = 0;
       pthread_create (&bw.th, 0, bw_thread, 0);
-      if (wait_flag (&bw.done, 250))
+      if (wait_flag (&bw.done, 100))
         {
           pthread_join (bw.th, 0);
           emit ("enq %u %u %u %s", p, v, size, bw.rc ? "ok" : "fail");
@@ -222,7 +265,7 @@ static void cmd_deq (unsigned bufsize)
       qmsg_t m = { 0, 0 };
       memcpy (&m, buf, sz < sizeof m ? sz : sizeof m);
       emit ("deq %u %u %u %lu", bufsize, m.p, m.v, (unsigned long) sz);
-      if (bw.pending && wait_flag (&bw.done, 2000))
+      if (bw.pending && wait_flag (&bw.done, LIVE_MS))
         {
           pthread_join (bw.th, 0);
           bw.pending = 0;
@@ -310,8 +353,8 @@ static wslot_t *slot_of (int w, int must_exist)
 
 static void wait_thread_exit (wslot_t * s)
 {
-  long end = now_ms () + 5000;
-  wait_flag (&s->returned, 5000);
+  long end = now_ms () + LIVE_MS;
+  wait_flag (&s->returned, LIVE_MS);
   while (async_worker_get_state (s->w) != ASYNC_WORKER_STOPPED && now_ms () < end)
     usleep (200);
   usleep (500);
@@ -346,9 +389,9 @@ static void cmd_wnew (int w, int hold)
       emit ("wnew %d null", w);
       return;
     }
-  wait_flag (&s->reached1, 5000);	/* the thread is at hook point 1: it has not stored RUNNING yet */
+  wait_flag (&s->reached1, LIVE_MS);	/* the thread is at hook point 1: it has not stored RUNNING yet */
   if (!hold)
-    wait_flag (&s->inproc, 5000);
+    wait_flag (&s->inproc, LIVE_MS);
   emit ("wnew %d ok", w);
 }
 
@@ -356,41 +399,53 @@ typedef struct
 {
   async_worker_t *w;
   int t;
-  volatile int done;
+  volatile int started, done;
   int rc;
+  int sleeps;			/* nanosleep() calls made by async_worker_join */
 } joinreq_t;
 
 static void *join_thread (void *arg)
 {
   joinreq_t *r = (joinreq_t *) arg;
+  sleep_counter = &r->sleeps;
+  __atomic_store_n (&r->started, 1, __ATOMIC_RELEASE);
   r->rc = async_worker_join (r->w, r->t) ? 1 : 0;
+  sleep_counter = 0;
   __atomic_store_n (&r->done, 1, __ATOMIC_RELEASE);
   return 0;
 }
 
-/* async_worker_join under a watchdog; returns rc, or -1 when it did not come back within the bound */
-static int bounded_join (async_worker_t * w, int t)
+/* async_worker_join under a watchdog; returns rc (and the number of 10 ms sleeps it made), or -1 when it did not
+ * come back.  The model proves that a timed join makes at most ceil(t/10) sleeps of 10 ms and never waits for
+ * anything else.  The watchdog makes, under the same machine load, 4 * (ceil(t/10) + 2) + 100 such sleeps
+ * (at least one second) after the joining thread has started: not back by then = overran. */
+static int bounded_join (async_worker_t * w, int t, int *sleeps)
 {
   static joinreq_t reqs[64];
   static int nreq;
   joinreq_t *r = &reqs[nreq++ % 64];
   pthread_t th;
-  long bound = (t < 0 ? 0 : t + POLL_MS) + SLACK_MS;
-  r->w = w, r->t = t, r->done = 0;
+  long budget = 4L * ((t < 0 ? 0 : (t + POLL_MS - 1) / POLL_MS) + 2) + 100;
+  r->w = w, r->t = t, r->done = 0, r->started = 0, r->sleeps = 0;
   pthread_create (&th, 0, join_thread, r);
-  if (!wait_flag (&r->done, bound))
+  wait_flag (&r->started, LIVE_MS);
+  while (!__atomic_load_n (&r->done, __ATOMIC_ACQUIRE) && budget-- > 0)
+    msleep (POLL_MS);
+  if (!__atomic_load_n (&r->done, __ATOMIC_ACQUIRE))
     {
       pthread_detach (th);
       return -1;
     }
   pthread_join (th, 0);
+  if (sleeps)
+    *sleeps = r->sleeps;
   return r->rc;
 }
 
 static void cmd_wjoin (int w, int t)
 {
   wslot_t *s = slot_of (w, 1);
-  int rc;
+  int rc, sleeps = 0;
   if (!s)
     {
       emit ("skip no-worker");
@@ -406,16 +461,16 @@ static void cmd_wjoin (int w, int t)
       emit ("skip untimed-join-on-live-thread");
       return;
     }
-  rc = bounded_join (s->w, t);
+  rc = bounded_join (s->w, t, &sleeps);
   if (rc < 0)
     {
-      emit ("wjoin %d %d overran", w, t);
+      emit ("wjoin %d %d overran 0", w, t);
       fflush (out);
       _exit (0);		/* the controlling thread of the model is stuck in pthread_join: the case ends here */
     }
   if (rc)
     s->joined = 1;
-  emit ("wjoin %d %d %d", w, t, rc);
+  emit ("wjoin %d %d %d %d", w, t, rc, sleeps);
 }
 
 static int worker_cmd (char **tok, int n)
@@ -459,7 +514,7 @@ static int worker_cmd (char **tok, int n)
         {
           __atomic_store_n (&s->hold, 0, __ATOMIC_RELEASE);
           sem_post (&s->gate1);
-          wait_flag (&s->inproc, 5000);
+          wait_flag (&s->inproc, LIVE_MS);
           emit ("wrelease %d ok", w);
         }
       else
@@ -471,7 +526,7 @@ static int worker_cmd (char **tok, int n)
       if (s->inproc && !s->exited)
         {
           int before = __atomic_load_n (&s->steps, __ATOMIC_ACQUIRE);
-          long end = now_ms () + 5000;
+          long end = now_ms () + LIVE_MS;
           if (quit)
             __atomic_store_n (&s->quit, 1, __ATOMIC_RELEASE);
           sem_post (&s->step);
@@ -562,7 +617,7 @@ static int timer_cmd (char **tok, int n)
       long el = now_ms () - t0;
       __atomic_store_n (&tm_count, 0, __ATOMIC_RELEASE);	/* from here on every callback is "after stop" */
       tm_slept = 0;
-      emit ("tstop %d %s", rc, el <= (long) tm_interval_ms + SLACK_MS ? "within" : "overran");
+      emit ("tstop %d %s", rc, came_back_late (el, (long) tm_interval_ms) ? "overran" : "within");
       return 1;
     }
   if (!strcmp (tok[0], "tactive") && n == 1)
@@ -580,7 +635,12 @@ static int timer_cmd (char **tok, int n)
     }
   if (!strcmp (tok[0], "tticks") && n == 1)
     {
-      int c = __atomic_exchange_n (&tm_count, 0, __ATOMIC_ACQ_REL);
+      int c;
+      /* a tick is due (the timer was active for >= 10 intervals): on a slow machine the timer thread may not have
+       * been scheduled yet - wait for the tick itself, the time slept is no verdict */
+      if (tm_inited && platform_timer_is_active (&tm) && tm_slept >= 10 * tm_interval_ms && tm_slept > 0)
+        wait_flag (&tm_count, LIVE_MS);
+      c = __atomic_exchange_n (&tm_count, 0, __ATOMIC_ACQ_REL);
       /* too short a sleep to promise a tick: the class is not determined by the schedule */
       int amb = tm_inited && platform_timer_is_active (&tm) && tm_slept > 0 && tm_slept < 10 * tm_interval_ms;
       tm_slept = 0;
@@ -619,6 +679,7 @@ typedef struct
   int id, nper;
   uint64_t seed;
   int refused;
+  volatile int done;
 } prod_t;
 
 #define MT_KEY0 0x1000
@@ -637,6 +698,7 @@ static void *post_producer (void *arg)
       if (rng_next (&p->seed) % 5 == 0)
         async_runtime_wakeup (rt);
     }
+  __atomic_store_n (&p->done, 1, __ATOMIC_RELEASE);
   return 0;
 }
 
@@ -658,14 +720,23 @@ static void mt_post (int nprod, int nper, int maxev, uint64_t seed)
   the_rt ();
   for (int i = 0; i < nprod; i++)
     {
-      pr[i].id = i, pr[i].nper = nper, pr[i].seed = seed * 131 + i, pr[i].refused = 0;
+      pr[i].id = i, pr[i].nper = nper, pr[i].seed = seed * 131 + i, pr[i].refused = 0, pr[i].done = 0;
       pthread_create (&th[i], 0, post_producer, &pr[i]);
     }
-  deadline = now_ms () + 8000;
+  deadline = now_ms () + 2 * LIVE_MS;	/* liveness only: producers stuck */
+  int empty_after_done = 0;
   while (got + lost < total && now_ms () < deadline)
     {
       struct timeval tv = { 0, 20000 };
+      /* read BEFORE the wait: once every post has returned, a wait that brings nothing is decisive (the model
+       * proves that nothing is left behind without a doorbell) - no deadline is involved in the verdict */
+      int all_done = 1;
+      for (int i = 0; i < nprod; i++)
+        if (!__atomic_load_n (&pr[i].done, __ATOMIC_ACQUIRE))
+          all_done = 0;
       int n = async_runtime_wait (rt, ev, maxev, &tv);
+      if (n <= 0 && all_done && ++empty_after_done >= 3)
+        break;
       for (int i = 0; i < n; i++)
         {
           long k = (long) ev[i].completion_key - MT_KEY0;
@@ -746,7 +817,7 @@ static void mt_queue (int flags, int cap, int nprod, int nper, uint64_t seed)
       pr[i].id = i, pr[i].nper = nper, pr[i].seed = seed * 977 + i, pr[i].retry = exact, pr[i].done = 0;
       pthread_create (&th[i], 0, queue_producer, &pr[i]);
     }
-  deadline = now_ms () + 8000;
+  deadline = now_ms () + 2 * LIVE_MS;	/* liveness only: producers stuck */
   int joined = 0;
   for (;;)
     {
@@ -845,7 +916,7 @@ static void mt_worker (int n, uint64_t seed)
         }
       if (rng_next (&seed) % 4 != 0)
         {
-          rc = bounded_join (w, 20 + (int) (rng_next (&seed) % 30));	/* no stop signalled: must time out */
+          rc = bounded_join (w, 20 + (int) (rng_next (&seed) % 30), 0);	/* no stop signalled: must time out */
           if (rc != 0)
             {
               bad = 1, snprintf (why, sizeof why, "timed-join-without-stop %s", rc < 0 ? "overran" : "returned-true");
@@ -853,7 +924,11 @@ static void mt_worker (int n, uint64_t seed)
             }
         }
       async_worker_signal_stop (w);
-      rc = bounded_join (w, 2000);
+      /* the procedure polls the stop event every 0.2 ms; on a slow machine one timed join may expire before the
+       * thread was scheduled: every join must come back, one of them (liveness bound) with true */
+      for (int tries = 0; tries < 30; tries++)
+        if ((rc = bounded_join (w, 2000, 0)) != 0)
+          break;
       if (rc != 1)
         {
           bad = 1, snprintf (why, sizeof why, "join-after-stop %s", rc < 0 ? "overran" : "timed-out");
@@ -895,8 +970,7 @@ static void mt_timer (int interval, int run, uint64_t seed)
           break;
         }
       usleep (1000 * run + rng_next (&seed) % (1000 * interval));
-      a = __atomic_load_n (&tm_count, __ATOMIC_ACQUIRE);
-      if (run >= 10 * interval && a == 0)
+      if (run >= 10 * interval && !wait_flag (&tm_count, LIVE_MS))	/* waits for the first tick, however slow the machine */
         why = "never-fired";
       t0 = now_ms ();
       if (round == 2)
@@ -905,7 +979,7 @@ static void mt_timer (int interval, int run, uint64_t seed)
         why = "stop-failed";
       el = now_ms () - t0;
       a = __atomic_load_n (&tm_count, __ATOMIC_ACQUIRE);
-      if (el > interval + SLACK_MS)
+      if (came_back_late (el, interval))
         why = "stop-overran";
       usleep (3000 * interval);
       b = __atomic_load_n (&tm_count, __ATOMIC_ACQUIRE);
@@ -1081,7 +1155,7 @@ int main (int argc, char **argv)
 {
   const char *scratch = "/tmp";
   const char *keepdir = 0;
-  int timeout = 120;
+  int timeout = 900;
   char *line;
   for (int i = 1; i < argc; i++)
     {
